@@ -1488,6 +1488,15 @@ release_1:
         }
         s->last_rx_tx = now;
         s->last_ping = now;
+        /* The ping now waits in the sendqueue: its retransmission is due before the next keepalive */
+        nextpdu = coap_peek_next(ctx);
+        if (nextpdu) {
+          coap_tick_t elapsed = now >= ctx->sendqueue_basetime ? now - ctx->sendqueue_basetime : 0;
+
+          s_timeout = nextpdu->t > elapsed ? nextpdu->t - elapsed : 1;
+          if (timeout == 0 || s_timeout < timeout)
+            timeout = s_timeout;
+        }
       }
       s_timeout = (s->last_rx_tx + ctx->ping_timeout * COAP_TICKS_PER_SECOND) - now;
       if (timeout == 0 || s_timeout < timeout)
